@@ -22,6 +22,7 @@ import sys
 import threading
 import time
 
+sys.dont_write_bytecode = True
 sys.path.insert(0, os.path.dirname(os.path.abspath(__file__)))
 import c06lib  # noqa: E402
 
